@@ -726,6 +726,15 @@ fn oset_run<T: Ord + Clone + std::hash::Hash + std::fmt::Debug>(
                 refs.insert(r, cr);
                 out.push(show_set(&regs[&r]));
             }
+            "clonefrom" => {
+                // `Clone::clone_from` into an existing register (longer, shorter or equal)
+                let s: u32 = w[2].parse().unwrap();
+                let src = regs[&s].clone();
+                let srcr = refs[&s].clone();
+                regs.get_mut(&r).unwrap().clone_from(&src);
+                refs.get_mut(&r).unwrap().clone_from(&srcr);
+                out.push(show_set(&regs[&r]));
+            }
             "default" => {
                 regs.insert(r, Oset::default());
                 refs.insert(r, BTreeSet::new());
@@ -759,7 +768,14 @@ fn oset_run<T: Ord + Clone + std::hash::Hash + std::fmt::Debug>(
                 let s: u32 = w[2].parse().unwrap();
                 if w[0] == "cmp" {
                     let a = regs[&r].cmp(&regs[&s]);
-                    if a != refs[&r].cmp(&refs[&s]) {
+                    if a != refs[&r].cmp(&refs[&s])
+                        || regs[&r].partial_cmp(&regs[&s]) != Some(a)
+                        || (regs[&r] < regs[&s]) != (a == std::cmp::Ordering::Less)
+                        || (regs[&r] <= regs[&s]) != (a != std::cmp::Ordering::Greater)
+                        || (regs[&r] > regs[&s]) != (a == std::cmp::Ordering::Greater)
+                        || (regs[&r] != regs[&s]) != (a != std::cmp::Ordering::Equal)
+                        || regs[&r].clone().max(regs[&s].clone()) != (if a == std::cmp::Ordering::Greater { regs[&r].clone() } else { regs[&s].clone() })
+                    {
                         out.push("ref-mismatch".into());
                     }
                     out.push(format!("{:?}", a).to_lowercase());
